@@ -95,6 +95,7 @@ int main(int argc, char** argv) {
     std::vector<std::pair<std::string, std::string>> finals;
     std::vector<std::pair<std::string, std::string>> revalidate; // scans whose nv sets to recheck
     int depth = 2;
+    bool print_events = false;
     static char line[1 << 20];
     while (std::fgets(line, sizeof line, f)) {
         std::istringstream in(line);
@@ -148,6 +149,9 @@ int main(int argc, char** argv) {
             while (in >> a) o.args.push_back(a);
             if (threads.size() <= tid) threads.resize(tid + 1);
             threads[tid].push_back(o);
+        } else if (w == "events") {
+            S.log_pre = true;
+            print_events = true;
         } else if (w == "final") {
             std::string st, k;
             in >> st;
@@ -201,6 +205,10 @@ int main(int argc, char** argv) {
     for (int t : S.trace) std::cout << " " << t;
     std::cout << "\nSTEPS " << S.steps << "\n";
     for (auto& nt : S.notes) std::cout << "H " << nt.first << " " << nt.second << "\n";
+    if (print_events)
+        for (auto& e : S.log)
+            std::cout << "E " << e.seq << " " << e.tid << " " << e.kind << " " << e.obj << " " << hx(e.addr) << " "
+                      << hx(e.val) << " " << e.ok << "\n";
     // quiescent state
     for (auto& fk : finals) {
         std::pair<char*, std::size_t> g{};
